@@ -1,5 +1,18 @@
 /-
-  C31 — property theorems (all over ALL call histories; the codec libraries are the parameter `C : Codecs`).
+  C31 — property theorems.  Every theorem quantifies over ALL call histories `ops` (any interleaving of
+  encoding.decode/encode on arbitrary bodies and of Message ops / header mutations on two messages) run from
+  any state `s0` with an empty cache; the codec libraries are the law-carrying parameter `C : Codecs`.
+  Proof method: `stepWith_cache` (what one op can do to the cache — a fact about the model alone), hence
+  the invariant `Inv` (the entry is a true statement about the uncached decoder) by induction on `ops`.
+
+  * `decode_transparent`                    decode result = uncached result, exactly (all names, all outcomes)
+  * `encode_semantically_transparent`       compressed codings always encode; result decodes back to the input
+  * `set_get_content`, `unknown_coding_removed`
+  * `raw_decodes_to_content_lenient`        raw body decodes to the content under mitmproxy's own decoder
+  * `raw_decodes_to_content_partial(_hit)`  … under the strict reference decoder, F-C31a class excluded
+  * `raw_decodes_to_content_counterexample` the unguarded strict statement `RawDecodesToContent` is false
+  * `content_length_eq_raw_len_without_TE`
+  * `decode_encode_preserves`
 -/
 import MitmVerif.Model.C31
 namespace MitmVerif.Props.C31
@@ -977,5 +990,49 @@ theorem decode_encode_preserves (C : Codecs) (s0 : State) (h0 : s0.cache = none)
   rw [step_get]
   simp only [setMsg_cache, setMsg_msg]
   exact hg true _
+
+/-! ### non-vacuity: the hypotheses are satisfiable, the model is not constant (kernel-evaluated on `toy`) -/
+
+private def brN : Bytes := [0x62, 0x72]                -- "br"
+private def brU : Bytes := [0x42, 0x52]                -- "BR"
+private def gzipN : Bytes := [0x67, 0x7a, 0x69, 0x70]  -- "gzip"
+private def fooN : Bytes := [0x66, 0x6f, 0x6f]         -- "foo"
+private def utf8N : Bytes := [0x75, 0x74, 0x66, 0x38]  -- "utf8"
+/-- message 0: peer body `1 :: [7, 8]` (toy-compressed `[7, 8]`) under Content-Encoding "BR" -/
+private def okState : State := ⟨none, ⟨some [1, 7, 8], some brU, false, none⟩, emptyMsg⟩
+
+-- kinds really occur, and `OkName` covers absent / empty / mixed-case / unknown headers
+example : kindOf gzipN = .cached ∧ kindOf brN = .cached ∧ kindOf identityB = .identity ∧ kindOf fooN = .unknown ∧
+    kindOf utf8N = .pytext := by decide
+example : OkName (effName none) ∧ OkName (effName (some [])) ∧ OkName (effName (some brU)) ∧ OkName (effName (some fooN)) := by
+  refine ⟨Or.inl ?_, Or.inl ?_, Or.inr (Or.inl ?_), Or.inr (Or.inr ?_)⟩ <;> decide
+-- the cache is really used: reading fills it, and the following assignment is a hit that keeps the peer's bytes
+example : (run toy okState [.getContent false true]).1.cache = some ⟨[1, 7, 8], brN, strictB, [7, 8]⟩ := by decide
+example : (run toy okState [.getContent false true]).2 = [.ok [7, 8]] := by decide
+example : (run toy ⟨none, ⟨some [2, 7], some brN, false, none⟩, emptyMsg⟩
+    [.getContent false true, .setContent false (some [7]), .getContent false true]).1.m0.raw = some [2, 7] := by decide
+-- … while an interleaved call on another body evicts the entry and the canonical stream is stored
+example : (run toy ⟨none, ⟨some [2, 7], some brN, false, none⟩, emptyMsg⟩
+    [.getContent false true, .enc [9] gzipN strictB, .setContent false (some [7]), .getContent false true]).1.m0.raw
+    = some [1, 7] := by decide
+-- the decoder does reject something; text codecs let TypeError through and leave the message alone
+example : (step toy okState (.dec [3, 3] brN strictB)).2 = .verr := by decide
+example : (step toy ⟨none, ⟨some [5], some utf8N, false, some 1⟩, emptyMsg⟩ (.setContent false (some [6]))) =
+    (⟨none, ⟨some [5], some utf8N, false, some 1⟩, emptyMsg⟩, .terr) := by decide
+-- hypotheses of `decode_encode_preserves` hold on a non-trivial state, and the pipeline does what it says
+example : (step toy okState (.getContent false true)).2 = .ok [7, 8] := by decide
+example : (run toy okState [.mdecode false true, .mencode false gzipN, .getContent false true]).2 =
+    [.done, .done, .ok [7, 8]] := by decide
+example : (run toy okState [.mdecode false true, .mencode false fooN, .getContent false true]) =
+    (⟨some ⟨[1, 7, 8], brN, strictB, [7, 8]⟩, ⟨some [7, 8], none, false, some 2⟩, emptyMsg⟩, [.done, .verr, .ok [7, 8]]) := by decide
+-- the guards are satisfiable and discriminate: strict history vs. the F-C31a history
+example : strictHist toy okState [.getContent false true, .setContent false (some [7, 8])] = true := by decide
+example : strictHist toy cexState [.getContent false true] = false := by decide
+example : lenientHit toy (run toy cexState [.getContent false true]).1.cache [] brN = true := by decide
+example : lenientHit toy (run toy okState [.getContent false true]).1.cache [7, 8] brN = false := by decide
+-- Content-Length: written without Transfer-Encoding, untouched with it
+example : ((step toy okState (.setContent false (some [4, 4, 4]))).1.m0.cl,
+    (step toy ⟨none, ⟨none, some brN, true, some 99⟩, emptyMsg⟩ (.setContent false (some [4]))).1.m0.cl) =
+    (some 4, some 99) := by decide
 
 end MitmVerif.Props.C31
